@@ -31,6 +31,9 @@ pub struct C30Scenario {
     /// decision with more than one candidate; afterwards the seeded policy.
     pub schedule: Vec<usize>,
     pub sched_seed: u64,
+    /// Language-server actors on project 0: each opens these files (one server lifetime).
+    #[serde(default)]
+    pub ls_actors: Vec<Vec<String>>,
 }
 
 fn s(v: &[&str]) -> Vec<String> {
@@ -170,6 +173,8 @@ pub struct Outcome {
     pub gates: usize,
     pub interleaving: u64,
     pub info_torn: usize,
+    pub ls_gates: usize,
+    pub ls_lock_try: usize,
 }
 
 pub fn path_of(w: &World, p: &Project) -> std::path::PathBuf {
@@ -219,6 +224,13 @@ pub fn run(sc: &C30Scenario, cmds_run: &mut u64) -> Result<Outcome, String> {
             env: world::env_for(&w.home, hist::hashseed_for(&projects[*pi], args)),
         })
         .collect();
+    let mut specs = specs;
+    let ls_exe = simcore::evidence::verif_root().join("target/debug/lssim");
+    for (k, files) in sc.ls_actors.iter().enumerate() {
+        let mut args = vec!["--actor".to_string(), path_of(&w, &projects[0]).to_string_lossy().to_string(), w.scratch.path.join(format!("ls{k}.json")).to_string_lossy().to_string()];
+        args.extend(files.iter().cloned());
+        specs.push(ProcSpec { name: format!("ls{k}"), exe: ls_exe.clone(), args, cwd: path_of(&w, &projects[0]), env: world::env_for(&w.home, 3 + k as u64) });
+    }
     let mut sched = Sched::new(&sc.schedule, sc.sched_seed);
     let sockdir = w.scratch.path.join("cc");
     let r = coord::run(&sockdir, &specs, w.now, &mut sched, Duration::from_secs(300));
@@ -235,6 +247,8 @@ pub fn run(sc: &C30Scenario, cmds_run: &mut u64) -> Result<Outcome, String> {
         gates: r.trace.len(),
         interleaving: simcore::fsutil::hash_u64(r.trace.iter().map(|t| format!("{}:{};", t.actor, t.kind)).collect::<String>().as_bytes()),
         info_torn: 0,
+        ls_gates: r.trace.iter().filter(|t| t.actor.starts_with("ls")).count(),
+        ls_lock_try: r.trace.iter().filter(|t| t.actor.starts_with("ls") && t.kind == "lock.try").count(),
     };
     if let Some(d) = r.deadlock {
         outcome.violation = Some(("deadlock".into(), format!("no process can proceed: {d}")));
@@ -242,9 +256,47 @@ pub fn run(sc: &C30Scenario, cmds_run: &mut u64) -> Result<Outcome, String> {
     }
     for (i, p) in r.procs.iter().enumerate() {
         if p.exit == Some(101) || p.exit.is_none() || p.stderr.contains("panicked at") {
-            outcome.violation = Some(("panic".into(), format!("process p{i} {:?} panicked or died: exit {:?}: {}", sc.cmds[i].1, p.exit, hist::tail(&p.stderr, 500))));
+            outcome.violation = Some(("panic".into(), format!("process {} {:?} panicked or died: exit {:?}: {}", p.name, sc.cmds.get(i).map(|c| c.1.clone()), p.exit, hist::tail(&p.stderr, 500))));
             return Ok(outcome);
         }
+    }
+    // The language server never waits on a build's lock (it may only fail to acquire).
+    if let Some((a, path)) = r.blocked.iter().find(|(a, _)| a.starts_with("ls")) {
+        outcome.violation = Some(("ls-waits-on-lock".into(), format!("language-server actor {a} blocked waiting for {path}")));
+        return Ok(outcome);
+    }
+    // Each language server's final diagnostics equal those of a server running alone
+    // on a pristine copy of the same sources.
+    if !sc.ls_actors.is_empty() {
+        let prj = &projects[0];
+        let rbase = w.scratch.path.join("rls");
+        for (k, files) in sc.ls_actors.iter().enumerate() {
+            let _ = std::fs::remove_dir_all(&rbase);
+            let rprj = rbase.join(&prj.name);
+            simcore::fsutil::write_file(&rprj.join("Veryl.toml"), prj.toml.render(&prj.name).as_bytes());
+            for (f, c) in &prj.files {
+                simcore::fsutil::write_file(&rprj.join(f), c.as_bytes());
+            }
+            let rout = rbase.join("out.json");
+            let mut cmd = std::process::Command::new(&ls_exe);
+            cmd.arg("--actor").arg(&rprj).arg(&rout).args(files).current_dir(&rprj).env_remove("VERYL_SIM_SOCK");
+            for (kk, vv) in world::env_for(&rbase.join("home"), 3 + k as u64) {
+                cmd.env(kk, vv);
+            }
+            let _ = cmd.output();
+            *cmds_run += 1;
+            let norm = |p: &std::path::Path| -> Option<serde_json::Value> {
+                let v: serde_json::Value = serde_json::from_str(&std::fs::read_to_string(p).ok()?).ok()?;
+                Some(v["diagnostics"].clone())
+            };
+            let got = norm(&w.scratch.path.join(format!("ls{k}.json")));
+            let want = norm(&rout);
+            if got != want {
+                outcome.violation = Some(("ls-diagnostics".into(), format!("language server ls{k} next to {:?}: diagnostics {} but a server running alone gives {}", sc.cmds, got.map(|x| x.to_string()).unwrap_or("none".into()).chars().take(400).collect::<String>(), want.map(|x| x.to_string()).unwrap_or("none".into()).chars().take(400).collect::<String>())));
+                return Ok(outcome);
+            }
+        }
+        let _ = std::fs::remove_dir_all(&rbase);
     }
     let torn = torn_reads(&r.trace, &initial);
     // info.toml is read before the .build lock is taken and written in place; it is not
@@ -297,6 +349,22 @@ const CMDS: &[&[&str]] = &[&["build"], &["build"], &["check"], &["test", "--seed
 
 pub fn gen_scenario(seed: u64) -> C30Scenario {
     let mut rng = Rng::new(seed);
+    if rng.chance(1, 4) {
+        // one or two builds/checks alongside one or two language servers on the same project
+        let g = wgen::gen_project(&mut rng, true, false);
+        let mut prep = vec![];
+        if rng.chance(1, 2) {
+            prep.push(Step::Cmd { args: s(&["build"]) });
+        }
+        let names: Vec<String> = g.project.files.keys().cloned().collect();
+        let nls = 1 + rng.below(2);
+        let ls_actors = (0..nls).map(|_| { let k = 1 + rng.below(2.min(names.len())); let mut v = names.clone(); rng.shuffle(&mut v); v.truncate(k); v }).collect();
+        let n = 1 + rng.below(2);
+        let cmds = (0..n).map(|_| (0usize, s(CMDS[rng.below(3)]))).collect();
+        let mut project = g.project;
+        project.toml.incremental = true;
+        return C30Scenario { kind: "build-with-language-server".into(), projects: vec![project], prep, cmds, schedule: vec![], sched_seed: rng.next_u64() % 1_000_000, ls_actors };
+    }
     let shared = rng.chance(2, 5);
     if shared {
         // Two projects, cold shared user cache, standard library enabled.
@@ -310,7 +378,7 @@ pub fn gen_scenario(seed: u64) -> C30Scenario {
         }
         let n = 2 + rng.below(2);
         let cmds = (0..n).map(|i| (i % 2, s(&["build"]))).collect();
-        C30Scenario { kind: "shared-user-cache".into(), projects: ps, prep: vec![], cmds, schedule: vec![], sched_seed: rng.next_u64() % 1_000_000 }
+        C30Scenario { kind: "shared-user-cache".into(), projects: ps, prep: vec![], cmds, schedule: vec![], sched_seed: rng.next_u64() % 1_000_000, ls_actors: vec![] }
     } else {
         let with_tests = rng.chance(1, 4);
         let g = wgen::gen_project(&mut rng, true, with_tests);
@@ -327,7 +395,7 @@ pub fn gen_scenario(seed: u64) -> C30Scenario {
         let n = 2 + rng.below(2);
         let ncmd = if with_tests { CMDS.len() } else { 3 };
         let cmds = (0..n).map(|_| (0usize, s(CMDS[rng.below(ncmd)]))).collect();
-        C30Scenario { kind: "same-project".into(), projects: vec![g.project], prep, cmds, schedule: vec![], sched_seed: rng.next_u64() % 1_000_000 }
+        C30Scenario { kind: "same-project".into(), projects: vec![g.project], prep, cmds, schedule: vec![], sched_seed: rng.next_u64() % 1_000_000, ls_actors: vec![] }
     }
 }
 
@@ -375,6 +443,8 @@ pub fn check(tier: &str) -> i32 {
                 probes.add("schedule.switches", o.switches);
                 probes.add("lock.blocked_reports", o.blocked as u64);
                 probes.add("observation.torn_info_toml_reads", o.info_torn as u64);
+                probes.add("gates.by_language_server_actors", o.ls_gates as u64);
+                probes.add("gates.language_server_try_lock", o.ls_lock_try as u64);
                 if o.blocked > 0 {
                     probes.inc("scenario.with_lock_contention");
                 }
@@ -434,7 +504,7 @@ pub fn check(tier: &str) -> i32 {
             }
         }
     }
-    for p in ["scenario.same-project", "scenario.shared-user-cache", "scenario.with_lock_contention", "schedule.switches"] {
+    for p in ["scenario.same-project", "scenario.shared-user-cache", "scenario.build-with-language-server", "scenario.with_lock_contention", "schedule.switches", "gates.language_server_try_lock"] {
         if probes.get(p) == 0 {
             rep.harness_error(&format!("reach probe {p} stayed at zero"));
         }
@@ -446,7 +516,7 @@ pub fn check(tier: &str) -> i32 {
     extra.insert("distinct_interleavings".into(), json!(interleavings.len()));
     extra.insert("interleaving_measure".into(), json!("hash of the (actor, gate kind) release sequence of the concurrent phase"));
     extra.insert("runs_per_hour".into(), json!((n as f64 / wall * 3600.0) as u64));
-    extra.insert("components".into(), json!({"real": ["2-3 concurrent veryl CLI processes (build/check/test)", "kernel flock (via try_lock + report + retry at the lock gates)", "filesystem", "std expansion into the shared user cache"], "simulated": ["process scheduling: one runnable actor at a time, chosen by the schedule", "clock", "RandomState keys"], "stub_boundary": ["git checkouts (resolve/, dependencies/<uuid>) are written by gitoxide internals without gates: only path-free projects are used", "the language-server actor is exercised separately (lssim)"]}));
+    extra.insert("components".into(), json!({"real": ["2-3 concurrent veryl CLI processes (build/check/test)", "kernel flock (via try_lock + report + retry at the lock gates)", "filesystem", "std expansion into the shared user cache"], "simulated": ["process scheduling: one runnable actor at a time, chosen by the schedule", "clock", "RandomState keys"], "stub_boundary": ["git checkouts (resolve/, dependencies/<uuid>) are written by gitoxide internals without gates: only path-free projects are used", "the language-server actor runs one lifetime (open files, quiesce, probe); longer editor scripts are lssim's (C07)"]}));
     Evidence {
         property_id: "C30".into(),
         tier: tier.into(),
@@ -454,7 +524,7 @@ pub fn check(tier: &str) -> i32 {
         level: "exploration".into(),
         evaluations: n as u64,
         distinct_nontrivial: distinct.len() as u64,
-        rule: "seeded scenarios: (a) 2-3 of build/check/test on the same project after an optional build+edits, (b) 2-3 builds of two projects sharing a cold user cache with the standard library enabled; a seeded scheduler (biased to switch after existence checks, truncations, lock hand-overs and between files of a multi-file write; 1 in 8 run-to-completion) picks the next process at every gate. distinct_nontrivial = distinct interleavings (hash of the actor/gate sequence) with at least two context switches".into(),
+        rule: "seeded scenarios: (a) 2-3 of build/check/test on the same project after an optional build+edits, (b) 2-3 builds of two projects sharing a cold user cache with the standard library enabled, (c) 1-2 build/check processes next to 1-2 language-server processes (real Server on the shim queue, gates owned by the same coordinator) on one project; a seeded scheduler (biased to switch after existence checks, truncations, lock hand-overs and between files of a multi-file write; 1 in 8 run-to-completion) picks the next process at every gate. distinct_nontrivial = distinct interleavings (hash of the actor/gate sequence) with at least two context switches".into(),
         samples,
         extra,
         assumptions: vec![
